@@ -16,6 +16,9 @@ Edges   : f(...)            resolved by name (nested def, module def, import fro
           x.attr (load or store) where attr is a property of some package class -> its accessors
           import statements -> the `<module>` node of the imported package module
           every node -> IMPLICIT; scope -> its lambda node and nested defs
+State   : KState sinks = a memoising (lru_cache / cache / cached_property) or unknown decorator on a function (arguments =
+          its parameters), and stores / mutating method calls whose target is module-level, class-level or external-module
+          state, with the provenance of what is stored.
 Sinks   : eval exec compile __import__ importlib.* open io.open codecs.open os.* (except pure os.path
           string functions) subprocess.* socket.* and other effect modules; reflective
           setattr/getattr/delattr with a non-literal name; str.format on a non-literal format string.
@@ -34,6 +37,7 @@ PKG = "diffpy.structure"
 EXCLUDE_DIRS = {"apps", "tests", "__pycache__"}
 CONST, REGISTRY, FILENAME, TEXT = 0, 1, 2, 3
 PNAME = ["PConst", "PRegistry", "PFileName", "PText"]
+PURE_EXT_PREFIX = ("numpy.", "math.", "re.", "copy.", "itertools.", "operator.", "fractions.", "string.", "functools.reduce")
 PURE_OS_PATH = {"os.path.basename", "os.path.splitext", "os.path.dirname", "os.path.join", "os.path.split",
                 "os.path.normpath", "os.path.normcase", "os.path.sep", "os.path.extsep"}
 SINK_PREFIX = [  # dotted external name prefix -> kind
@@ -62,6 +66,12 @@ DANGEROUS_METHODS = {"system": "KProcess", "popen": "KProcess", "Popen": "KProce
                      "mkdir": "KOs", "rename": "KOs", "chmod": "KOs", "chown": "KOs", "putenv": "KOs", "urlopen": "KSocket",
                      "urlretrieve": "KSocket", "import_module": "KImport", "exec_module": "KImport", "load_module": "KImport",
                      "eval": "KEval", "exec": "KExec"}
+SAFE_DECORATORS = {"staticmethod", "classmethod", "property", "contextmanager", "contextlib.contextmanager", "abstractmethod",
+                   "abc.abstractmethod", "functools.wraps", "wraps"}
+CACHE_DECORATORS = {"lru_cache", "cache", "cached_property"}
+MUTATING_METHODS = {"append", "extend", "insert", "add", "update", "setdefault", "pop", "remove", "clear", "discard", "popitem",
+                    "sort", "reverse", "appendleft", "extendleft", "__setitem__", "__delitem__", "register"}
+ARG_SAFE_METHODS = {"update", "extend", "append", "add", "insert", "setdefault", "write", "writelines"}   # keep, never mutate, their argument
 COMP_SCOPES = ("<genexpr>", "<listcomp>", "<setcomp>", "<dictcomp>")
 
 
@@ -122,6 +132,7 @@ class Analysis:
         for m in self.mods.values():
             self.collect_props(m)
         self._param_cache = {}
+        self._penv, self._ret_stack, self._name_cache = [], [], {}
         for s in list(self.scopes.values()):
             self.analyse_scope(s)
         self.finish()
@@ -189,6 +200,7 @@ class Analysis:
                 walk_body(old, node.body, qual + ".<locals>", cls=None)
                 return old
             self.scopes[s.id] = s
+            s.decorators = list(node.decorator_list)
             self.by_name.setdefault(node.name, []).append(s)
             # decorators and defaults run in the parent scope
             for d in node.decorator_list + a.defaults + [x for x in a.kw_defaults if x is not None]:
@@ -344,6 +356,17 @@ class Analysis:
             if isinstance(n, ast.Call):
                 self.mutations(scope, n)
 
+    def owner(self, scope, name):
+        """the scope whose variable `name` is (an enclosing function or the module), else the current scope"""
+        s = scope
+        while s is not None:
+            if name in s.assigns or name in getattr(s, "params", []):
+                return s
+            s = s.parent if s.kind != "module" else None
+        if name in scope.mod.scope.assigns:
+            return scope.mod.scope
+        return scope
+
     def mutations(self, scope, n):
         """fail-closed container tracking: whatever is handed to a method of a variable, or the variable handed to
         code that may mutate it, is joined into the variable's provenance"""
@@ -352,14 +375,14 @@ class Analysis:
         if isinstance(f, ast.Attribute) and isinstance(f.value, ast.Name) and f.attr not in PURE_READ_METHODS \
                 and self.lookup(scope, f.value.id)[0] in ("var", "unknown"):
             for a in args:
-                scope.assigns.setdefault(f.value.id, []).append(a)
+                self.owner(scope, f.value.id).assigns.setdefault(f.value.id, []).append(a)
         pure_callee = False
         if isinstance(f, ast.Name) and hasattr(builtins, f.id):
             pure_callee = True
         d = None
         if isinstance(f, ast.Attribute):
             d = self.dotted(scope, f) if getattr(scope, "done", False) else None
-            if f.attr in PURE_STR_METHODS or f.attr in PURE_READ_METHODS:
+            if f.attr in PURE_STR_METHODS or f.attr in PURE_READ_METHODS or f.attr in ARG_SAFE_METHODS:
                 pure_callee = True
         if not pure_callee:
             for a in args:
@@ -382,7 +405,7 @@ class Analysis:
             while isinstance(base, (ast.Subscript, ast.Attribute)):
                 base = base.value
             if isinstance(base, ast.Name) and base.id not in ("self", "cls"):
-                scope.assigns.setdefault(base.id, []).append(value)
+                self.owner(scope, base.id).assigns.setdefault(base.id, []).append(value)
 
     # ------------------------------------------------------------ name resolution
     def lookup(self, scope, name):
@@ -485,7 +508,7 @@ class Analysis:
 
     # ------------------------------------------------------------ provenance
     def prov(self, scope, e, depth=0, seen=None):
-        if depth > 12:
+        if depth > 40:
             return TEXT
         seen = seen or set()
         P = lambda x: self.prov(scope, x, depth + 1, seen)   # noqa: E731
@@ -515,6 +538,8 @@ class Analysis:
             return P(e.value)
         if isinstance(e, ast.Name):
             return self.prov_name(scope, e.id, depth, seen)
+        if isinstance(e, ast.Lambda):
+            return CONST         # a code object of the program
         if isinstance(e, ast.Attribute):
             # Class.literal / module.literal
             if isinstance(e.value, ast.Name):
@@ -525,14 +550,24 @@ class Analysis:
                     return self.prov_name(self.mods[r[1]].scope, e.attr, depth, seen)
                 if e.value.id == "self" and e.attr == "filename":
                     return FILENAME
-            return TEXT
+            d = self.dotted(scope, e)
+            if d is not None and not d.startswith(PKG):
+                return CONST     # an object of an external library module
+            return P(e.value)    # an attribute of an object has at most the object's class (stores taint the variable)
         if isinstance(e, ast.Call):
             if isinstance(e.func, ast.Attribute) and isinstance(e.func.value, ast.Name) and e.func.value.id == "dict" \
                     and e.func.attr == "fromkeys" and self.lookup(scope, "dict")[0] == "builtin":
                 return max([P(a) for a in e.args] + [CONST])
             d = self.dotted(scope, e.func)
-            if d in PURE_OS_PATH:
-                return max([P(a) for a in e.args] + [CONST])
+            if d in PURE_OS_PATH or (d is not None and d.startswith(PURE_EXT_PREFIX)):
+                return max([P(a) for a in e.args] + [P(k.value) for k in e.keywords] + [CONST])
+            if isinstance(e.func, ast.Name):
+                r = self.lookup(scope, e.func.id)
+                if r[0] == "class":
+                    # an instance built by a package class holds what it was given
+                    return max([P(a) for a in e.args] + [P(k.value) for k in e.keywords] + [CONST])
+                if r[0] == "scope" and r[1].kind == "func":
+                    return self.prov_return(scope, e, r[1], depth, seen)
             if isinstance(e.func, ast.Attribute) and e.func.attr in ("get", "pop", "setdefault"):
                 # an element of the container or the default: the key does not contribute
                 return max([P(e.func.value)] + [P(a) for a in e.args[1:]])
@@ -541,7 +576,9 @@ class Analysis:
                 return max([base] + [P(a) for a in e.args] + [P(k.value) for k in e.keywords])
             if isinstance(e.func, ast.Name) and e.func.id in ("str", "repr", "int", "float", "len", "list", "tuple", "sorted",
                                                              "dict", "set", "bool", "min", "max", "sum", "abs", "round", "range",
-                                                             "enumerate", "zip", "reversed") \
+                                                             "enumerate", "zip", "reversed", "hash", "frozenset", "map", "filter",
+                                                             "any", "all", "isinstance", "type", "id", "iter", "next", "divmod",
+                                                             "pow", "ord", "chr", "complex", "slice") \
                     and self.lookup(scope, e.func.id)[0] == "builtin":
                 return max([P(a) for a in e.args] + [P(k.value) for k in e.keywords] + [CONST])
             return TEXT
@@ -553,8 +590,55 @@ class Analysis:
             return CONST
         return TEXT
 
+    def prov_return(self, scope, call, callee, depth, seen):
+        """provenance of the value a package function returns at this call site: join of its return expressions with the
+        parameters bound to the provenance of the actual arguments (one calling context, depth-limited)"""
+        if depth > 8 or any(isinstance(a, ast.Starred) for a in call.args) or any(k.arg is None for k in call.keywords):
+            return TEXT
+        key = callee.id
+        if key in self._ret_stack:
+            return CONST        # recursion: contributes nothing new
+        env = {}
+        params = callee.params
+        for i, a in enumerate(call.args):
+            if i < len(params):
+                env[params[i]] = self.prov(scope, a, depth + 1, seen)
+            else:
+                return TEXT
+        for k in call.keywords:
+            if k.arg in params or k.arg in callee.kwonly:
+                env[k.arg] = self.prov(scope, k.value, depth + 1, seen)
+            else:
+                return TEXT
+        for pn in params + callee.kwonly:
+            env.setdefault(pn, CONST)        # default value: a constant of the program
+        rets = [n for n in getattr(callee, "nodes", []) if isinstance(n, ast.Return)]
+        if any(isinstance(n, (ast.Yield, ast.YieldFrom)) for n in getattr(callee, "nodes", [])):
+            return TEXT
+        self._ret_stack.append(key)
+        self._penv.append((callee.id, env))
+        try:
+            out = CONST
+            for rn in rets:
+                if rn.value is not None:
+                    out = max(out, self.prov(callee, rn.value, depth + 1, set()))
+            return out
+        finally:
+            self._penv.pop()
+            self._ret_stack.pop()
+
     def prov_name(self, scope, name, depth, seen):
         r = self.lookup(scope, name)
+        if r[0] == "var" and not seen and not self._penv:
+            ck = (r[1].id, name)
+            if ck in self._name_cache:
+                return self._name_cache[ck]
+            v = self._prov_name(scope, name, depth, seen, r)
+            self._name_cache[ck] = v
+            return v
+        return self._prov_name(scope, name, depth, seen, r)
+
+    def _prov_name(self, scope, name, depth, seen, r):
         if r[0] == "var":
             s = r[1]
             key = (s.id, name)
@@ -582,6 +666,9 @@ class Analysis:
     def prov_param(self, s, name, depth, seen):
         if name in ("filename",):
             return FILENAME
+        for sid, env in reversed(self._penv):
+            if sid == s.id and name in env:
+                return env[name]
         if s.kind != "func" or name in ("self", "cls"):
             return TEXT
         bare = s.qual.split(".")[-1]
@@ -590,7 +677,7 @@ class Analysis:
             return TEXT
         # join over the in-package call sites (by bare name)
         key = (s.id, name)
-        if key in self._param_cache:
+        if key in self._param_cache and self._param_cache[key] is not None:
             return self._param_cache[key]
         self._param_cache[key] = TEXT      # recursion guard
         is_method = s.cls is not None or "." in s.qual and s.qual.split(".")[0] in s.mod.classes
@@ -678,6 +765,7 @@ class Analysis:
                 E.update(x for x in self.props[n.attr] if x in self.scopes)
             if isinstance(n, ast.Call):
                 self.call(scope, n)
+        self.state_sinks(scope)
         if scope.kind == "module":
             # import-protocol hooks become callable by the import system once their module has run
             for c in m.classes.values():
@@ -691,6 +779,58 @@ class Analysis:
                 mn = ".".join(parts[:i])
                 if mn in self.mods:
                     E.add(self.mods[mn].scope.id)
+
+    def state_sinks(self, scope):
+        """process-wide state fed by a function: memoising / unknown decorators, stores into module-level or class-level
+        containers and attributes.  (Module and class bodies themselves only build the program's own data.)"""
+        if scope.kind == "module":
+            return
+        for d in getattr(scope, "decorators", []):
+            u = ast.unparse(d.func if isinstance(d, ast.Call) else d)
+            base = u.split(".")[-1]
+            if u in SAFE_DECORATORS or base in ("setter", "getter", "deleter"):
+                continue
+            # a memoising decorator keeps every argument and result for the life of the process; an unknown one may
+            provs = [self.prov_param(scope, pn, 0, set()) for pn in scope.params + scope.kwonly if pn not in ("self", "cls")]
+            if getattr(scope, "vararg", None) or getattr(scope, "kwarg", None):
+                provs.append(TEXT)
+            if base not in CACHE_DECORATORS:
+                provs.append(TEXT)
+            self.add_sink(scope, "KState", d, provs, False, "@" + u)
+        for n in scope.nodes:
+            targets, value = [], None
+            if isinstance(n, ast.Assign):
+                targets, value = n.targets, n.value
+            elif isinstance(n, (ast.AugAssign, ast.AnnAssign)) and getattr(n, "value", None) is not None:
+                targets, value = [n.target], n.value
+            elif isinstance(n, ast.Delete):
+                targets, value = n.targets, ast.Constant(value=None)
+            for t in targets:
+                for tt in (t.elts if isinstance(t, (ast.Tuple, ast.List)) else [t]):
+                    if isinstance(tt, (ast.Subscript, ast.Attribute)) and self.global_root(scope, tt):
+                        idx = [tt.slice] if isinstance(tt, ast.Subscript) else []
+                        self.add_sink(scope, "KState", n, [self.prov(scope, value)] + [self.prov(scope, i) for i in idx], False,
+                                      "store " + ast.unparse(tt)[:40])
+            if isinstance(n, ast.Call) and isinstance(n.func, ast.Attribute) and n.func.attr in MUTATING_METHODS \
+                    and self.global_root(scope, n.func.value, whole=True):
+                self.add_sink(scope, "KState", n, self.arg_provs(scope, n), False, "mutate " + ast.unparse(n.func)[:40])
+
+    def global_root(self, scope, target, whole=False):
+        """does the store target / receiver live in module-level, class-level or external-module state?"""
+        base = target if whole else target.value
+        chain = []
+        while isinstance(base, (ast.Subscript, ast.Attribute)):
+            if isinstance(base, ast.Attribute):
+                chain.append(base.attr)
+            base = base.value
+        if not isinstance(base, ast.Name):
+            return False
+        if base.id in ("self", "cls"):
+            return "__class__" in chain or base.id == "cls"
+        r = self.lookup(scope, base.id)
+        if r[0] == "var":
+            return r[1].kind == "module"
+        return r[0] in ("pkgvar", "class", "mod", "ext", "scope")
 
     def add_sink(self, scope, kind, node, args, flag=False, what=""):
         scope.sinks.append({"node": scope.id, "kind": kind, "line": node.lineno, "args": args, "flag": flag, "what": what})
